@@ -33,6 +33,31 @@ namespace vt
    {
       std::string buf;
       FILE* f = nullptr;
+      std::string prefix;       // rotating output: prefix.NNN.ndjson
+      int part = 0;
+      long long written = 0;    // bytes in the current part
+      long long rotate_at = 3 << 20;
+      void open_rotating( const char* pfx )
+      {
+         prefix = pfx;
+         part = 0;
+         next_part();
+      }
+      void next_part()
+      {
+         close();
+         char tmp[ 32 ];
+         std::snprintf( tmp, sizeof tmp, ".%04d.ndjson", part++ );
+         open( ( prefix + tmp ).c_str() );
+         written = 0;
+      }
+      // called at case boundaries only
+      void maybe_rotate()
+      {
+         if( !prefix.empty() && written + (long long)buf.size() > rotate_at ) {
+            next_part();
+         }
+      }
       void open( const char* path )
       {
          f = std::fopen( path, "w" );
@@ -46,6 +71,7 @@ namespace vt
       {
          if( f && !buf.empty() ) {
             std::fwrite( buf.data(), 1, buf.size(), f );
+            written += (long long)buf.size();
             buf.clear();
             std::fflush( f );
          }
@@ -817,6 +843,7 @@ namespace vt
       G.in_case = true;
       ++G.case_id;
       Writer& w = G.tr;
+      w.maybe_rotate();
       w.s( "{\"k\":\"case\"" );
       w.kv( "id", G.case_id );
       w.kv( "g", c.root );
@@ -957,7 +984,7 @@ namespace vt
    inline void init( const char* trace_path, const char* table_path )
    {
       Global& G = g();
-      G.tr.open( trace_path );
+      G.tr.open_rotating( trace_path );
       G.tb.open( table_path );
       std::set_terminate( on_terminate );
       std::signal( SIGSEGV, on_signal );
